@@ -6,6 +6,8 @@
          revert, run the demo (must pass);
       2. apply the patch to /repo, run ./check <ID> (and extra IDs) in the quick tier, revert;
       3. store patch, demo and meta.json under /verif/seeded/<ID>-<mN>/ and append to seeded/RESULTS.md.
+  run_seeded.py confirm <worktree> <ID> <mN>
+      steps 1 and 3 only (does not touch /repo; may run in parallel for different worktrees); judge with `rerun <name>`.
   run_seeded.py also <name> <ID> [<ID> ...]
       run further checks against a stored change and record the outcome.
   run_seeded.py rerun [<name> ...]
@@ -78,7 +80,7 @@ def write_results():
         f.write("| change | property | what it does | caught by (exit 1) | not caught (exit 0) | other |\n|---|---|---|---|---|---|\n")
         f.write("\n".join(rows) + "\n")
 
-def do_import(wt, pid, mn, extra):
+def do_import(wt, pid, mn, extra, judge=True):
     src = os.path.join(wt, "out", mn)
     patch = os.path.join(src, "patch.diff")
     demo = os.path.join(src, "demo")
@@ -110,12 +112,13 @@ def do_import(wt, pid, mn, extra):
     os.makedirs(dst)
     shutil.copy(patch, os.path.join(dst, "patch.diff"))
     shutil.copytree(demo, os.path.join(dst, "demo"))
-    checks = run_checks(os.path.join(dst, "patch.diff"), [pid] + extra)
+    checks = run_checks(os.path.join(dst, "patch.diff"), [pid] + extra) if judge else {}
     meta.update({"property": pid, "confirmation": log, "verif_checks": checks,
                  "note": "demo/go.mod replace directives point at the scratch worktree the change was verified in (%s); adjust them to run elsewhere" % wt})
     json.dump(meta, open(os.path.join(dst, "meta.json"), "w"), indent=1, ensure_ascii=False)
     print("   checks:", {k: v.get("exit") for k, v in checks.items() if isinstance(v, dict)})
-    write_results()
+    if judge:
+        write_results()
     return 0
 
 def do_rerun(names):
@@ -135,6 +138,9 @@ if __name__ == "__main__":
     os.makedirs(SEEDED, exist_ok=True)
     if sys.argv[1] == "import":
         sys.exit(do_import(sys.argv[2], sys.argv[3], sys.argv[4], sys.argv[5:]))
+    elif sys.argv[1] == "confirm":
+        # confirm <worktree> <ID> <mN>: step 1 and 3 only (safe to run for several worktrees in parallel); judge later with `rerun <name>`
+        sys.exit(do_import(sys.argv[2], sys.argv[3], sys.argv[4], [], judge=False))
     elif sys.argv[1] == "rerun":
         do_rerun(sys.argv[2:])
     elif sys.argv[1] == "also":
